@@ -279,6 +279,14 @@ def SepFree (K : List Bytes) : Prop := ∀ k ∈ K, ∀ k' ∈ K, ¬ (k ++ [dot]
 /-- no key is a proper prefix of another key. -/
 def PrefixFree (K : List Bytes) : Prop := ∀ k ∈ K, ∀ k' ∈ K, k' <+: k → k' = k
 
+/-- the data region after versions `n, n+1, …` (the lists of kvs) were added in order on top of `db`. -/
+def dataFrom (db : DB) (n : Nat) : List (List (Bytes × Bytes)) → DB
+  | [] => db
+  | kvs :: rest => dataFrom (applyAdd db n kvs) (n + 1) rest
+
+/-- the data region of the version chain `vs` (version `i` wrote `vs[i]`). -/
+def dataOf (vs : List (List (Bytes × Bytes))) : DB := dataFrom [] 0 vs
+
 /-- no record of version `n` yet. -/
 def Fresh (n : Nat) (db : DB) : Prop := ∀ e ∈ db, ∀ k, e.1 ≠ getKey k n
 
